@@ -1,0 +1,101 @@
+//go:build verif
+// +build verif
+
+package livesql
+
+import (
+	"errors"
+	"reflect"
+	"unsafe"
+
+	"github.com/samsarahq/thunder/logger"
+	"github.com/siddontang/go-mysql/replication"
+)
+
+// This file is compiled only with -tags verif.  It lets the verification harness drive the real
+// RunPollLoop / parseBinlogRowsEvent / dbTracker from an in-process event stream, without a MySQL
+// replication connection.
+
+// VerifBinlog is a Binlog fed from an in-process channel.
+type VerifBinlog struct {
+	*Binlog
+	Events chan *replication.BinlogEvent
+	errs   chan error
+}
+
+func setUnexported(v reflect.Value, name string, x interface{}) {
+	f := v.FieldByName(name)
+	reflect.NewAt(f.Type(), unsafe.Pointer(f.UnsafeAddr())).Elem().Set(reflect.ValueOf(x))
+}
+
+// NewVerifBinlog builds a Binlog around ldb whose streamer reads from the returned Events channel.
+// Column metadata still comes from ldb.Conn (information_schema.columns).
+func NewVerifBinlog(ldb *LiveDB, database string, l logger.Logger) *VerifBinlog {
+	ch := make(chan *replication.BinlogEvent, 4096)
+	ech := make(chan error, 4)
+	s := &replication.BinlogStreamer{}
+	v := reflect.ValueOf(s).Elem()
+	setUnexported(v, "ch", ch)
+	setUnexported(v, "ech", ech)
+	if l == nil {
+		l = logger.New()
+	}
+	b := &Binlog{
+		db:            ldb.DB,
+		database:      database,
+		tracker:       ldb.tracker,
+		streamer:      s,
+		tableVersions: make(map[string]uint64),
+		columnMaps:    make(map[string]*columnMap),
+		logger:        l,
+	}
+	return &VerifBinlog{Binlog: b, Events: ch, errs: ech}
+}
+
+// Stop makes RunPollLoop return nil.
+func (vb *VerifBinlog) Stop() {
+	vb.mu.Lock()
+	vb.closed = true
+	vb.mu.Unlock()
+	vb.errs <- errors.New("verif: stop")
+}
+
+// VerifTrackerSize is the number of registered (table, filter) dependencies.
+func (ldb *LiveDB) VerifTrackerSize() int {
+	ldb.tracker.mu.Lock()
+	defer ldb.tracker.mu.Unlock()
+	return len(ldb.tracker.resources)
+}
+
+// VerifUpdate describes an *update as the tracker sees it.
+type VerifUpdate struct {
+	Table  string
+	Err    error
+	Before []interface{} // per delta; nil when absent
+	After  []interface{}
+}
+
+// VerifDescribeUpdate unpacks the second argument of the "livesql.tracker.process" observation point.
+func VerifDescribeUpdate(u interface{}) VerifUpdate {
+	up := u.(*update)
+	out := VerifUpdate{Table: up.table, Err: up.err}
+	for _, d := range up.deltas {
+		out.Before = append(out.Before, d.before)
+		out.After = append(out.After, d.after)
+	}
+	return out
+}
+
+// VerifVerdicts evaluates shouldInvalidate for every registered resource.  It must be called from the
+// "livesql.tracker.process" observation point (the tracker's mutex is held there).
+func VerifVerdicts(t interface{}, u interface{}) map[interface{}]bool {
+	tr, up := t.(*dbTracker), u.(*update)
+	out := make(map[interface{}]bool, len(tr.resources))
+	for q := range tr.resources {
+		out[q] = q.shouldInvalidate(up)
+	}
+	return out
+}
+
+// VerifTracker is the identity of the tracker of a LiveDB (first argument of the observation points).
+func (ldb *LiveDB) VerifTracker() interface{} { return ldb.tracker }
